@@ -40,13 +40,15 @@ func (node *tagForNode) Execute(ctx *ExecutionContext, writer TemplateWriter) (f
 		}
 	}
 
-	// Register loopInfo in public context
-	forCtx.Private["forloop"] = loopInfo
-
+	// The sequence is an expression of the enclosing scope: it is evaluated
+	// before this loop's own forloop record is registered
 	obj, err := node.objectEvaluator.Evaluate(forCtx)
 	if err != nil {
 		return err
 	}
+
+	// Register loopInfo in public context
+	forCtx.Private["forloop"] = loopInfo
 
 	obj.IterateOrder(func(idx, count int, key, value *Value) bool {
 		// There's something to iterate over (correct type and at least 1 item)
